@@ -189,6 +189,13 @@ func run(c Case) (pbt.Outcome, error) {
 			late := root.SubScope("late")
 			late.Counter("c").Inc(1)
 			late.Tagged(map[string]string{"x": "y"}).Gauge("g").Update(1)
+			// ... and through handles of subscopes that predate the Close
+			for _, old := range scopes {
+				l2 := old.SubScope("late2")
+				l2.Counter("c").Inc(1)
+				l2.Timer("t").Record(time.Millisecond)
+				old.Tagged(map[string]string{"late": "3"}).Counter("c").Inc(1)
+			}
 			log.Mark("again-call")
 			err2 := closer.Close()
 			log.Mark("again-ret err=%v", err2)
@@ -255,7 +262,7 @@ func run(c Case) (pbt.Outcome, error) {
 	for _, e := range ev {
 		switch {
 		case strings.HasPrefix(e.Kind, "alloc") || strings.HasPrefix(e.Kind, "bucket"):
-			if strings.HasPrefix(e.Name, "late") {
+			if _, lateTag := e.Tags["late"]; strings.Contains(e.Name, "late") || lateTag {
 				errs.Addf("a scope obtained after Close is not inert, it allocated on the reporter: %v", e)
 			}
 		case isDelivery(e.Kind) || e.Kind == rec.KFlush:
@@ -273,7 +280,7 @@ func run(c Case) (pbt.Outcome, error) {
 				if e.Kind == rec.KGauge && e.Name == "g" && e.F == 42.5 {
 					gaugeSeen = true
 				}
-				if strings.HasPrefix(e.Name, "late") {
+				if _, lateTag := e.Tags["late"]; strings.Contains(e.Name, "late") || lateTag {
 					errs.Addf("a scope/metric obtained after Close delivered: %v", e)
 				}
 			}
@@ -382,7 +389,7 @@ func run(c Case) (pbt.Outcome, error) {
 func TestC08(t *testing.T) {
 	pbt.Main(t, pbt.Prop[Case]{
 		ID: "C08", Name: "sched",
-		Rule: "cooperative-scheduler mode with the REAL report-loop goroutine adopted as a controlled thread (it parks at its hooks; resuming it from 'idle' waits for the next real tick of a 100us..1ms ticker), or a root without interval: rapid generates 0..8 subscopes, counters, pre-recorded values, 0..2 recorder threads, 1..3 concurrent Close callers, post-Close activity (record on old handles, obtain scopes, Close again), plain/cached reporter with/without io.Closer (nil or error), AND the schedule (<=200 choices: where the loop goroutine is - before the first tick, between ticks, at any hook inside a periodic pass or inside a reporter call - when Close is called, and how Close's steps interleave with it). Oracle over the ordered reporter log with Close call/return markers: everything recorded before Close was called is delivered (bounds up to all) before the last Close call returned, followed by a Flush; reporter closed exactly once after that flush inside the winner's call whose return value is its error, others nil; no reporter call after the return; the loop goroutine has ended by then; further Close returns nil and calls nothing; late scopes deliver nothing; no panic, no hang. Non-trivial: Close was called while the loop goroutine was inside a periodic pass. Distinct: FNV-64 of program+schedule JSON.",
+		Rule: "cooperative-scheduler mode with the REAL report-loop goroutine adopted as a controlled thread (it parks at its hooks; resuming it from 'idle' waits for the next real tick of a 100us..1ms ticker), or a root without interval: rapid generates 0..8 subscopes, counters, pre-recorded values, 0..2 recorder threads, 1..3 concurrent Close callers, post-Close activity (record on old handles, obtain scopes from the root and from subscope handles that predate the Close, Close again), plain/cached reporter with/without io.Closer (nil or error), AND the schedule (<=200 choices: where the loop goroutine is - before the first tick, between ticks, at any hook inside a periodic pass or inside a reporter call - when Close is called, and how Close's steps interleave with it). Oracle over the ordered reporter log with Close call/return markers: everything recorded before Close was called is delivered (bounds up to all) before the last Close call returned, followed by a Flush; reporter closed exactly once after that flush inside the winner's call whose return value is its error, others nil; no reporter call after the return; the loop goroutine has ended by then; further Close returns nil and calls nothing; late scopes deliver nothing; no panic, no hang. Non-trivial: Close was called while the loop goroutine was inside a periodic pass. Distinct: FNV-64 of program+schedule JSON.",
 		Gen:  gen, Run: run, Retries: 20,
 	})
 }
